@@ -863,13 +863,18 @@ func (e *engine) crashRun(ops []Op, i, k int, after bool, snaps []snapshot, a *a
 	A, B := snaps[i], snaps[i+1]
 	a.run = hashOf("crash", ops[i].K, fmt.Sprint(k, after), show(got.hist), show(got.stash))
 	defer func() { a.hashes = append(a.hashes, a.run) }()
-	okHist := listsEqual(got.hist, A.hist) || listsEqual(got.hist, B.hist) || isPrefix(got.hist, B.hist) || isSuffix(got.hist, A.hist)
+	// An add is made durable by an append or by tmp+rename: old or new state,
+	// never less. Only a clear (truncate and rewrite) may be caught half way,
+	// which leaves a prefix of its result.
+	okHist := listsEqual(got.hist, A.hist) || listsEqual(got.hist, B.hist) || isSuffix(got.hist, A.hist) ||
+		(ops[i].K == "hclear" && isPrefix(got.hist, B.hist))
 	if !okHist {
 		return viol("crash-history-inconsistent",
 			"death %s step %d of op %d (%s): next start loaded %s; before the op the session held %s, after it %s",
 			side, k, i, ops[i].K, show(got.hist), show(A.hist), show(B.hist))
 	}
-	okStash := listsEqual(got.stash, A.stash) || listsEqual(got.stash, B.stash) || isPrefix(got.stash, B.stash) || isSuffix(got.stash, A.stash)
+	okStash := listsEqual(got.stash, A.stash) || listsEqual(got.stash, B.stash) || isSuffix(got.stash, A.stash) ||
+		(ops[i].K == "sclear" && isPrefix(got.stash, B.stash))
 	if !okStash {
 		return viol("crash-stash-inconsistent",
 			"death %s step %d of op %d (%s): next start loaded stash %s; before the op %s, after it %s",
